@@ -12,6 +12,7 @@ import (
 	"context"
 	"encoding/json"
 	"fmt"
+	"math"
 	"os"
 	"os/exec"
 	"runtime"
@@ -224,6 +225,10 @@ type op struct {
 	xops  []op
 	xw    []int
 	xname string
+	// kind 'Y': a raw statement outside the machine's values (floats, -0.0, function values, extension calls): direct
+	// oracle only (the driver prints SKIP for the sequence). xsrc, xw, xname as above; after it, ychk must render (exactly:
+	// floats with a fraction) as ywant
+	ychk, ywant string
 }
 
 // ---- variadic calls (direct oracle only: the container machine has no variadic functions, the driver prints SKIP for a
@@ -478,6 +483,12 @@ func bodyEnc(b []prim) string {
 }
 func (o op) enc() string {
 	switch o.kind {
+	case 'Y':
+		ws := make([]string, len(o.xw))
+		for i, v := range o.xw {
+			ws[i] = strconv.Itoa(v)
+		}
+		return "Y:" + o.xname + "." + Hx([]byte(o.xsrc)) + "." + Hx([]byte(o.ychk)) + "." + Hx([]byte(o.ywant)) + ":" + strings.Join(ws, ",")
 	case 'X':
 		parts := make([]string, len(o.xops))
 		for i, q := range o.xops {
@@ -503,7 +514,7 @@ func (o op) src() string {
 		parts[i] = p.src()
 	}
 	switch o.kind {
-	case 'X':
+	case 'X', 'Y':
 		return o.xsrc
 	case 'V':
 		return o.vSrc()
@@ -529,7 +540,7 @@ func (o op) src() string {
 func (o op) writes() map[int]bool {
 	w := map[int]bool{}
 	switch o.kind {
-	case 'X':
+	case 'X', 'Y':
 		for _, v := range o.xw {
 			w[v] = true
 		}
@@ -555,7 +566,7 @@ func (o op) writes() map[int]bool {
 }
 func (o op) opName() string {
 	switch o.kind {
-	case 'X':
+	case 'X', 'Y':
 		return o.xname
 	case 'V':
 		return "variadic"
@@ -641,6 +652,18 @@ func decOps(s string) []op {
 			ops = append(ops, decV(rest))
 			continue
 		}
+		if k == 'Y' {
+			i := strings.IndexByte(rest, ':')
+			hd := strings.Split(rest[:i], ".")
+			o := op{kind: 'Y', xname: hd[0], xsrc: string(Unhx(hd[1])), ychk: string(Unhx(hd[2])), ywant: string(Unhx(hd[3]))}
+			if rest[i+1:] != "" {
+				for _, w := range strings.Split(rest[i+1:], ",") {
+					o.xw = append(o.xw, atoi(w))
+				}
+			}
+			ops = append(ops, o)
+			continue
+		}
 		if k == 'X' {
 			i := strings.IndexByte(rest, ':')
 			hd := strings.SplitN(rest[:i], ".", 2)
@@ -692,6 +715,8 @@ func newSession() *session {
 	se := &session{s: s, opts: repl.Options{All: true, ShowEval: true, NoColor: true, NilAndErr: true}}
 	se.exec("idf=func(x){x}")       // hands its argument back as is
 	se.exec("mkp=func(n){(0:9)+n}") // pure: its result is memoized, every call with the same n returns the same array
+	se.exec("vfn=func(..){..}")     // hands back its `..`: an array made by the evaluator from the call's arguments
+	se.exec("mkc=func(n){()=>n}")   // closures that print alike
 	return se
 }
 
@@ -708,6 +733,41 @@ func (se *session) exec(src string) (string, bool, []string) {
 		return "err", false, errs
 	}
 	return "ok=" + strings.TrimSpace(out.String()), false, nil
+}
+
+// exact rendering: floats with a fraction (1.0, -0.0), so that an integer and the float of the same value differ
+func exact(o object.Object) string {
+	switch x := o.(type) {
+	case object.Integer:
+		return strconv.FormatInt(x.Value, 10)
+	case object.Float:
+		if x.Value == 0 && math.Signbit(x.Value) {
+			return "-0.0"
+		}
+		s := strconv.FormatFloat(x.Value, 'f', -1, 64)
+		if !strings.ContainsAny(s, ".eIN") {
+			s += ".0"
+		}
+		return s
+	}
+	if o.Type() == object.ARRAY {
+		els := object.Elements(o)
+		parts := make([]string, len(els))
+		for i, e := range els {
+			parts[i] = exact(e)
+		}
+		return "[" + strings.Join(parts, ",") + "]"
+	}
+	if m, ok := o.(object.Map); ok {
+		keys := object.Elements(o)
+		parts := make([]string, len(keys))
+		for i, k := range keys {
+			v, _ := m.Get(k)
+			parts[i] = exact(k) + ":" + exact(v)
+		}
+		return "{" + strings.Join(parts, ",") + "}"
+	}
+	return o.Inspect()
 }
 
 func kindOf(o object.Object) byte {
@@ -841,6 +901,15 @@ func c06Run(c *wctx, slack int, next func(step int, bs [nVars]binding) (op, bool
 			c.Fail("harness-unparsable-statement", line, fmt.Sprintf("step %d %q: %v", idx, o.src(), errs))
 		}
 		after := se.read()
+		if o.kind == 'Y' && o.ychk != "" && res != "err" {
+			got := "<error>"
+			if r, err := eval.EvalString(se.s, o.ychk, false); err == nil {
+				got = exact(r)
+			}
+			if got != o.ywant {
+				c.Fail("write-lost-"+o.xname, line, fmt.Sprintf("step %d %q: %s is %s afterwards, expected %s", idx, o.src(), o.ychk, got, o.ywant))
+			}
+		}
 		if twValid {
 			twValid = tw.execFlat(o, before)
 			if twValid {
@@ -1005,6 +1074,22 @@ func memoPlus(x int, n int64, e elem) op {
 	return op{kind: 'X', xname: "memoplus", xsrc: fmt.Sprintf("%s=mkp(%d)+%s", vname(x), n, e.src()), xw: []int{x},
 		xops: []op{{kind: 'P', p: prim{kind: "AL", x: 22, es: es}}, {kind: 'P', p: prim{kind: "PL", x: x, y: 22, e: e}}}}
 }
+
+// v<x> = vfn(e1,...,en): the `..` array of a variadic call, handed back (an array the evaluator made from the arguments)
+func variadicLit(x int, es []elem) op {
+	parts := make([]string, len(es))
+	for i, e := range es {
+		parts[i] = e.src()
+	}
+	return op{kind: 'X', xname: "variadicresult", xsrc: vname(x) + "=vfn(" + strings.Join(parts, ",") + ")", xw: []int{x},
+		xops: []op{{kind: 'P', p: prim{kind: "AL", x: x, es: es}}}}
+}
+
+// a raw statement, direct oracle only
+func raw(name, src string, w []int, chk, want string) op {
+	return op{kind: 'Y', xname: name, xsrc: src, xw: w, ychk: chk, ywant: want}
+}
+
 func plusVia(x, y int, e elem, via byte) op {
 	return op{kind: 'P', p: prim{kind: "PL", x: x, y: y, e: e, via: via}}
 }
@@ -1033,6 +1118,35 @@ func corpus() [][]op {
 				plusVia(2, 1, V(5), via), plusVia(3, 1, V(5), via), plusVia(4, 1, I(60), via), plusVia(6, 1, I(70), via),
 				P("IS", 2, 0, -1, 0, I(0)), plusVia(7, 2, I(1), via)})
 		}
+	}
+	// arrays made by the evaluator from call arguments (`..`), 8 / 9 / 12 of them, kept, copied, stored, and observed after
+	// FURTHER calls of every kind
+	for _, n := range []int{3, 8, 9, 12} {
+		base = append(base, []op{variadicLit(0, ints(1, n)), P("CP", 1, 0, 0, 0, elem{}), plusVia(2, 1, I(5), 'i'), variadicLit(3, ints(11, n)),
+			op{kind: 'P', p: prim{kind: "AL", x: 4, es: []elem{V(0), V(3)}}}, bodyCall(5, 3, "", prim{kind: "IS", x: paramVar, i: 0, e: I(7)}),
+			callCounter(6, 0), memoPlus(6, 1, I(2)), variadicLit(7, []elem{V(0), I(1), I(2)}), P("IS", 0, 0, 0, 0, I(99)), variadicLit(7, ints(21, 3)),
+			plusVia(2, 0, I(1), 'g')})
+	}
+	// a write of a value that is == to the current one but not identical (1 / 1.0, 0.0 / -0.0, closures that print
+	// alike), in small and large containers, with another holder of the container: the element must be the new value
+	for _, n := range []int{3, 8, 9, 12} {
+		base = append(base, []op{arrLit(0, n), P("CP", 1, 0, 0, 0, elem{}),
+			raw("indexassign-equalvalue", "v0[0]=1.00", []int{0}, "v0[0]", "1.0"), raw("indexassign-equalvalue", "v0[1]=0.00", []int{0}, "v0[1]", "0.0"),
+			raw("indexassign-equalvalue", "v0[1]=-0.0", []int{0}, "v0[1]", "-0.0"), raw("indexassign-equalvalue", "v0[1]=0", []int{0}, "v0[1]", "0"),
+			raw("indexassign-equalvalue", "v0[2]=mkc(1)", []int{0}, "v0[2]()", "1"), raw("indexassign-equalvalue", "v0[2]=mkc(2)", []int{0}, "v0[2]()", "2"),
+			raw("read", "v2=v1", []int{2}, "v1", func() string {
+				p := make([]string, n)
+				for i := range p {
+					p[i] = strconv.Itoa(i + 1)
+				}
+				return "[" + strings.Join(p, ",") + "]"
+			}())})
+	}
+	for _, n := range []int{3, 4, 5, 7} {
+		base = append(base, []op{mapLit(0, n), P("CP", 1, 0, 0, 0, elem{}),
+			raw("indexassign-equalvalue", "v0[1]=1.00", []int{0}, "v0[1]", "1.0"), raw("indexassign-equalvalue", "v0[2]=mkc(1)", []int{0}, "v0[2]()", "1"),
+			raw("indexassign-equalvalue", "v0[2]=mkc(2)", []int{0}, "v0[2]()", "2"), raw("indexassign-equalvalue", "v0[3]=-0.0", []int{0}, "v0[3]", "-0.0"),
+			raw("indexassign-equalvalue", "v0[3]=0.00", []int{0}, "v0[3]", "0.0"), raw("read", "v2=v1[1]", []int{2}, "v1[1]", "1")})
 	}
 	base = append(base, []op{arrLit(5, 1), memoPlus(0, 1, V(5)), memoPlus(1, 1, V(5)), memoPlus(2, 1, I(6)), memoPlus(3, 2, I(7)), memoPlus(4, 1, I(8)),
 		P("IS", 0, 0, 0, 0, I(99)), memoPlus(6, 1, I(9))})
@@ -1373,6 +1487,16 @@ func (g *genState) randOp(c *wctx) op {
 		return callCounter(c.R.Intn(nVars), slot)
 	case k < 35:
 		return memoPlus(c.R.Intn(nVars), int64(c.R.Intn(3)), g.randElem(c, true))
+	case k < 40:
+		n := arrSizes[c.R.Intn(len(arrSizes))]
+		es := make([]elem, n)
+		for i := range es {
+			es[i] = g.randElem(c, n <= 12)
+		}
+		if n > 0 && es[n-1].isVar { // a last argument that is an array would be spread into the `..`
+			es[n-1] = I(int64(c.R.Intn(50)))
+		}
+		return variadicLit(c.R.Intn(nVars), es)
 	}
 	return op{kind: 'P', p: g.randPrim(c, false, nil)}
 }
